@@ -21,6 +21,9 @@ pub struct Caller {
     pub lat_ms: u64,
     pub err: bool,
     pub cancel: CancelSpec,
+    /// which of the services built from the one layer this caller uses
+    #[serde(default)]
+    pub svc: u8,
 }
 
 #[derive(Clone, Debug, Serialize, Deserialize, PartialEq)]
@@ -33,6 +36,9 @@ pub struct Scn {
     pub listener_panic: bool,
     pub callers: Vec<Caller>,
     pub knobs: SchedKnobs,
+    /// a second service built from the same layer: it must have its own permits
+    #[serde(default)]
+    pub two_services: bool,
 }
 
 pub fn gen(rng: &mut Rng) -> Scn {
@@ -43,6 +49,7 @@ pub fn gen(rng: &mut Rng) -> Scn {
     let timeout_ms = *rng.pick(&[0, 0, p / 2, p / 2, p, p, p, 3 * p / 2, 3 * p / 2, 3 * p, 3 * p, u64::MAX]);
     let n = rng.range(2, 12) as usize;
     let faulty = rng.chance(1, 2);
+    let two_services = rng.chance(1, 4);
     let mut callers = vec![];
     // phase 1 arrivals near multiples of P and P/2, in bursts
     let mut burst_at = 0u64;
@@ -60,6 +67,7 @@ pub fn gen(rng: &mut Rng) -> Scn {
             lat_ms: *rng.pick(&[0u64, 0, 5, 10]),
             err: rng.chance(1, 8),
             cancel: if faulty { gen_cancel(rng, burst_at, 15) } else { CancelSpec::Never },
+            svc: if two_services { rng.below(2) as u8 } else { 0 },
         });
     }
     // idle gap then a burst of limit (+1) callers
@@ -68,10 +76,11 @@ pub fn gen(rng: &mut Rng) -> Scn {
         let t2 = last + if timeout_ms == u64::MAX { 20 * p } else { timeout_ms } + 3 * p + *rng.pick(&[0u64, 1, 7]);
         let extra = limit + rng.below(2) as u32;
         for _ in 0..extra {
-            callers.push(Caller { start_ms: t2, lat_ms: 0, err: false, cancel: CancelSpec::Never });
+            callers.push(Caller { start_ms: t2, lat_ms: 0, err: false, cancel: CancelSpec::Never, svc: 0 });
         }
     }
     Scn {
+        two_services,
         window,
         limit,
         period_ms: p,
@@ -94,6 +103,7 @@ pub fn valid(s: &Scn) -> bool {
         && s.callers.iter().all(|c| c.start_ms <= 2000 && c.lat_ms <= 50)
         && s.knobs.jumps.len() <= 3
         && s.knobs.jumps.iter().all(|j| j.0 <= 1000 && j.1 <= 200)
+        && s.callers.iter().all(|c| c.svc <= 1 && (s.two_services || c.svc == 0))
 }
 
 /// Is there a cut of the time line into consecutive windows, each at least `p` long, each with
@@ -142,7 +152,7 @@ pub fn run(s: &Scn, ctx: &mut RunCtx, prefix: &'static str) -> RunOutput {
         world::with(|w| {
             for (i, c) in scn.callers.iter().enumerate() {
                 w.script.by_req.insert(
-                    (0, i as u32),
+                    (c.svc, i as u32),
                     vec![Behaviour { lat_ms: c.lat_ms, out: if c.err { Outcome::Err(0) } else { Outcome::Ok }, yields: 0 }],
                 );
             }
@@ -168,10 +178,10 @@ pub fn run(s: &Scn, ctx: &mut RunCtx, prefix: &'static str) -> RunOutput {
                 });
         }
         let layer = b.build();
-        let base = layer.layer(SimInner::new(0));
+        let bases = [layer.layer(SimInner::new(0)), layer.layer(SimInner::new(1))];
         let mut defs = vec![];
         for (i, c) in scn.callers.iter().enumerate() {
-            let svc = base.clone();
+            let svc = bases[c.svc as usize].clone();
             let req = Req { id: i as u32, key: 0 };
             let make: Box<dyn FnOnce() -> LocalFut> = Box::new(move || {
                 Box::pin(async move {
@@ -195,7 +205,12 @@ pub fn run(s: &Scn, ctx: &mut RunCtx, prefix: &'static str) -> RunOutput {
     let mut idle = || {};
     let rep = run_sim(cfg, &mut ctx.chooser, setup, Hooks { step: &mut step, idle: &mut idle });
     let log = world::with(|w| std::mem::take(&mut w.log));
-    let calls = inner_calls(&log);
+    let all_calls = inner_calls(&log);
+    let mut any_waited = false;
+    let mut any_rejected = false;
+    for k in 0..(if s.two_services { 2u8 } else { 1 }) {
+    let calls: Vec<_> = all_calls.iter().filter(|c| c.svc == k).cloned().collect();
+    let mine_task = |i: usize| s.callers.get(i).map(|c| c.svc == k).unwrap_or(false);
     let jump = s.knobs.total_jump() * 1000;
     let p = s.period_ms * 1000;
     let l = s.limit as usize;
@@ -240,12 +255,10 @@ pub fn run(s: &Scn, ctx: &mut RunCtx, prefix: &'static str) -> RunOutput {
         }
     }
     // per caller
-    let mut any_waited = false;
-    let mut any_rejected = false;
     // limiter activity instants (arrivals, admissions, rejections) for the idle rule
     let mut activity: Vec<(u64, u64)> = vec![]; // (t_us, seq)
-    for t in rep.tasks.iter() {
-        if t.first_poll_seq > 0 {
+    for (i, t) in rep.tasks.iter().enumerate() {
+        if t.first_poll_seq > 0 && mine_task(i) {
             activity.push((t.first_poll_us, t.first_poll_seq));
             if t.end_seq > 0 {
                 activity.push((t.end_us, t.end_seq));
@@ -256,7 +269,7 @@ pub fn run(s: &Scn, ctx: &mut RunCtx, prefix: &'static str) -> RunOutput {
         activity.push((c.start_us, c.start_seq));
     }
     for (i, t) in rep.tasks.iter().enumerate() {
-        if t.first_poll_seq == 0 {
+        if t.first_poll_seq == 0 || !mine_task(i) {
             continue;
         }
         let a = t.first_poll_us;
@@ -317,7 +330,7 @@ pub fn run(s: &Scn, ctx: &mut RunCtx, prefix: &'static str) -> RunOutput {
             if prior.len() >= l {
                 let e = prior[prior.len() - l] + p;
                 let competition = rep.tasks.iter().enumerate().any(|(j, u)| {
-                    if j == i || u.first_poll_seq == 0 {
+                    if j == i || u.first_poll_seq == 0 || !mine_task(j) {
                         return false;
                     }
                     let decided_seq = calls
@@ -438,6 +451,7 @@ pub fn run(s: &Scn, ctx: &mut RunCtx, prefix: &'static str) -> RunOutput {
         if waiters_at.values().any(|n| *n >= 2) {
             world::probe("several_waiters_admitted_same_instant");
         }
+    }
     }
     let nontrivial = if prefix == "C02" { any_waited || any_rejected } else { any_waited || any_rejected };
     let mut w = world::take();
